@@ -64,7 +64,11 @@ def race_run(work, res):
                     gen_args=["-prop", "C12"], race=True).run(proofs_ok=True)
 
 
-CHECK = generic("C12", [dict(harness="pool", area="pool", gen_args=["-prop", "C12"])], extra=known_findings,
+# evtrace: every single synchronisation action of real concurrent executions of the pool (event-logging twin of the
+# scratch copy, harness/evinst) replayed label by label on Ekit.Pool's own step function (Driver/Ev/Pool.lean)
+EVTRACE = dict(harness="evtrace", area="evtrace", name="evtrace-pool", evinst=True, gen_args=["-targets", "pool"])
+
+CHECK = generic("C12", [dict(harness="pool", area="pool", gen_args=["-prop", "C12"]), EVTRACE], extra=known_findings,
                 thorough_extra=race_run, skel=["pool/task_pool.go"])
 
 MANIFEST = dict(
